@@ -83,6 +83,7 @@ type Commit struct {
 // Clone clones a commit into a new one
 func (c *Commit) Clone() (clone Commit) {
 	clone.Chunk = c.Chunk
+	clone.ID = c.ID
 	for _, u := range c.Updates {
 		if len(u.buffer) > 0 {
 			clone.Updates = append(clone.Updates, u.Clone())
